@@ -59,7 +59,12 @@ func c17Pair(source, target string) string {
 func c17Candidates(c *vrep.Ctx) {
 	alpha := []string{"a", "b", ","}
 	maxSrc, maxTgt := c.Pick(5, 6), c.Pick(6, 8)
-	c.R.Rule = fmt.Sprintf("ALL (source, target) token-sequence pairs over {a, b, ','}: sources of 1..%d tokens x targets of 1..%d tokens (highly repetitive, low vocabulary), blank separated; every candidate of FindPotentialMatches is checked for non-emptiness, target order, token bounds and byte range; non-trivial = pairs with at least one candidate", maxSrc, maxTgt)
+	if c.Param("alphabet", "") == "ab" {
+		// two-word vocabulary: longer, maximally repetitive sequences
+		alpha = []string{"a", "b"}
+		maxSrc, maxTgt = c.ParamInt("src", c.Pick(12, 13)), c.ParamInt("tgt", c.Pick(7, 9))
+	}
+	c.R.Rule = fmt.Sprintf("ALL (source, target) token-sequence pairs over %v: sources of 1..%d tokens x targets of 1..%d tokens (highly repetitive, low vocabulary), blank separated; every candidate of FindPotentialMatches is checked for non-emptiness, target order, token bounds and byte range; non-trivial = pairs with at least one candidate", alpha, maxSrc, maxTgt)
 	c.Bound("max_source_tokens", maxSrc)
 	c.Bound("max_target_tokens", maxTgt)
 	body := func(r *vx.Run) {
